@@ -790,6 +790,27 @@ theorem deco_partial_falls_through_to_caller (env : Env) (k : K) (n : String) (t
   rw [← hc.1] at he
   exact partial_leaf_falls_through env k n t s s' ht he
 
+/-- `rules_of class`: the rule table of one interpretation class / leaf — its OWN registry
+    (`StatefulInterpretationMeta` creates one per class; `DispatchedInterpretation` one per instance). -/
+def rulesOf (env : Env) (cls : String) : K → Bool := env.rules cls
+
+/-- **parent_ignores_subclass_rules.**  What a leaf of class `p` answers depends on `p`'s own table
+    only: whatever rules are registered on other classes (its subclasses, its siblings — or anything
+    else), `p` declines exactly what its own table declines, and then the enclosing layers answer. -/
+theorem parent_ignores_subclass_rules (env env' : Env) (p : String) (k : K) (rest : List I)
+    (hown : rulesOf env p = rulesOf env' p)
+    (hrest : handlerList env k rest = handlerList env' k rest) :
+    handler env k (.prio none (.disp p :: rest)) = handler env' k (.prio none (.disp p :: rest)) := by
+  have h : env.rules p k = env'.rules p k := congrFun hown k
+  simp only [handler, handlerList, h, hrest]
+
+/-- in particular, with no rule of its own for `k`, `p` falls through whatever its relatives define -/
+theorem leaf_without_rule_falls_through (env : Env) (p : String) (k : K) (rest : List I)
+    (h : rulesOf env p k = false) :
+    handler env k (.prio none (.disp p :: rest)) = handlerList env k rest := by
+  simp only [rulesOf] at h
+  simp [handler, handlerList, h]
+
 /-- **prebuilt_enters_at_enter_time.**  An interpretation object constructed anywhere, at any time
     (constructing is pure with respect to the stack: `Memoize(P)`, `PrioritizedInterpretation(P, W)`, a
     StatefulInterpretation instance hold only their arguments) and ENTERED while `t` is active: if it is
